@@ -196,20 +196,25 @@ Definition traf_senc (p : N) (moof_start senc_start : N) (saio_off : option N) (
    holds one entry per sample (nil entries for the samples before / after that have no sub-samples).  C07Model's
    senc_add is the pinned text; the two agree on the fragments EncryptFragment builds when every sample has a
    sub-sample map or none has (C06SencAuxProofs.senc_of_r_uniform) *)
-Definition senc_add_r (s : senc) (iv : list N) (ssps : list ssp) : res senc :=
-  do s1 <- (if negb (lenN iv =? 0) then
-              if sn_count s =? 0 then
-                Ok (mkSenc (u8 (lenN iv)) (sn_subs s) (sn_count s) (sn_ivs s ++ [iv]) (sn_ss s))
-              else if negb (lenN iv =? sn_ivsize s) then Err
-              else Ok (mkSenc (sn_ivsize s) (sn_subs s) (sn_count s) (sn_ivs s ++ [iv]) (sn_ss s))
-            else if negb (sn_count s =? 0) && negb (lenN (sn_ivs s) =? 0) then Err
-            else Ok s);
+Definition senc_add_iv_r (s : senc) (iv : list N) : res senc :=
+  if negb (lenN iv =? 0) then
+    if sn_count s =? 0 then
+      Ok (mkSenc (u8 (lenN iv)) (sn_subs s) (sn_count s) (sn_ivs s ++ [iv]) (sn_ss s))
+    else if negb (lenN iv =? sn_ivsize s) then Err
+    else Ok (mkSenc (sn_ivsize s) (sn_subs s) (sn_count s) (sn_ivs s ++ [iv]) (sn_ss s))
+  else if negb (sn_count s =? 0) && negb (lenN (sn_ivs s) =? 0) then Err
+  else Ok s.
+
+Definition senc_add_ss_r (s1 : senc) (ssps : list ssp) : senc :=
   let has := match ssps with [] => false | _ => true end in
   let s2 := if has || sn_subs s1 then
               mkSenc (sn_ivsize s1) (sn_subs s1 || has) (sn_count s1) (sn_ivs s1)
                      (sn_ss s1 ++ repeat [] (N.to_nat (sn_count s1) - length (sn_ss s1)) ++ [ssps])
             else s1 in
-  Ok (mkSenc (sn_ivsize s2) (sn_subs s2) (sn_count s2 + 1) (sn_ivs s2) (sn_ss s2)).
+  mkSenc (sn_ivsize s2) (sn_subs s2) (sn_count s2 + 1) (sn_ivs s2) (sn_ss s2).
+
+Definition senc_add_r (s : senc) (iv : list N) (ssps : list ssp) : res senc :=
+  do s1 <- senc_add_iv_r s iv; Ok (senc_add_ss_r s1 ssps).
 
 Fixpoint senc_of_r (s : senc) (l : list enc_sample) : res senc :=
   match l with
